@@ -102,6 +102,10 @@ func judgeConvSeq(c ConvSeqCase) (vs []evid.Violation) {
 				vs = append(vs, evid.V("name-preserved", "step %d: parameter %q comes back from the conversion as %q", i, name, got))
 			}
 			if tree, ok := parseJSON(schema); ok {
+				// the entry is the conversion of THIS schema (not of one converted earlier under the same name)
+				if ety, isStr := asMap(asMap(tree)["details"])["type"].(string); isStr && !hasCaseVariantKey(tree) && len(params) == 1 && params[0] != nil && params[0].Type != ety {
+					vs = append(vs, evid.V("entry-matches-schema", "step %d: the schema of parameter %q says details.type %q, the converted parameter has type %q", i, name, ety, params[0].Type))
+				}
 				var refs []string
 				foreignRefs(tree, name, &refs)
 				if len(refs) > 0 {
@@ -365,7 +369,7 @@ func judgeShared(c SharedCase) (vs []evid.Violation) {
 		go func(w int) {
 			defer wg.Done()
 			<-start
-			for round := 0; round < 3; round++ {
+			for round := 0; round < 2; round++ {
 				var got []string
 				pv := evid.Guard("shared-no-panic", func() { got = answers() })
 				mu.Lock()
